@@ -51,6 +51,44 @@ func H_C06_rect(shape int64) {
 	var paths Paths64
 	if shape == 0 {
 		paths = Paths64{vRect("p", vB29)}
+	} else if shape == 10 {
+		// L-shaped hexagon whose solid block contains the clip rectangle with all
+		// four rectangle corners on the polygon's boundary (no edge crosses the
+		// rectangle): rect = [x1, r] x [y0, y1] with x1 < r < x2
+		x0, x1, x2 := vInt("px0", -vB29, vB29), vInt("px1", -vB29, vB29), vInt("px2", -vB29, vB29)
+		y0, y1, y2 := vInt("py0", -vB29, vB29), vInt("py1", -vB29, vB29), vInt("py2", -vB29, vB29)
+		vAssume(vAnd(x0 < x1, x1 < x2))
+		vAssume(vAnd(y0 < y1, y1 < y2))
+		p := Path64{{x0, y0}, {x2, y0}, {x2, y1}, {x1, y1}, {x1, y2}, {x0, y2}}
+		if vBool("prev") {
+			p = vReversed(p)
+		}
+		paths = Paths64{p}
+		vAssume(vAnd(vAnd(rect.left == x1, rect.right < x2), vAnd(rect.top == y0, rect.bottom == y1)))
+	} else if shape == 9 {
+		// L-shaped hexagon, all 6 coordinates symbolic, either orientation,
+		// every 90-degree rotation via the symbolic flags
+		x0, x1, x2 := vInt("px0", -vB29, vB29), vInt("px1", -vB29, vB29), vInt("px2", -vB29, vB29)
+		y0, y1, y2 := vInt("py0", -vB29, vB29), vInt("py1", -vB29, vB29), vInt("py2", -vB29, vB29)
+		vAssume(vAnd(x0 < x1, x1 < x2))
+		vAssume(vAnd(y0 < y1, y1 < y2))
+		p := Path64{{x0, y0}, {x2, y0}, {x2, y1}, {x1, y1}, {x1, y2}, {x0, y2}}
+		if vBool("pmx") {
+			for i := range p {
+				p[i].X = -p[i].X
+			}
+			p = vReversed(p)
+		}
+		if vBool("pmy") {
+			for i := range p {
+				p[i].Y = -p[i].Y
+			}
+			p = vReversed(p)
+		}
+		if vBool("prev") {
+			p = vReversed(p)
+		}
+		paths = Paths64{p}
 	} else if shape <= 4 {
 		paths = Paths64{vCShape("p", shape-1, vB29)}
 	} else {
